@@ -242,7 +242,13 @@ impl BinaryDeserializer for Duration {
     fn deserialize(context: &mut DeserializationContext<'_>) -> Result<Self> {
         let seconds = context.read_u64()?;
         let nanos = context.read_u32()?;
-        Ok(Duration::new(seconds, nanos))
+        Duration::from_secs(seconds)
+            .checked_add(Duration::from_nanos(nanos as u64))
+            .ok_or_else(|| {
+                Error::DeserializationFailure(format!(
+                    "Failed to deserialize Duration: {seconds} s + {nanos} ns overflows"
+                ))
+            })
     }
 }
 
